@@ -105,7 +105,7 @@ fn plan(prop: &str) -> Option<Plan> {
         },
         "C05" => Plan {
             level: "exploration",
-            engines: vec![("regsim", 160_000, 16_000_000), ("regsim@min", 40_000, 4_000_000), ("tablesim", 60_000, 4_000_000)],
+            engines: vec![("regsim", 160_000, 16_000_000), ("regsim@min", 40_000, 4_000_000), ("tablesim", 60_000, 4_000_000), ("tablesim@min", 20_000, 1_000_000)],
             rule: "regsim: non-trivial when there were at least two deliveries and either an identity that was already present was delivered again or a reference went through an alias wrapper; tablesim (the run-time builder's side of 'equal values share an id, different values never do'): non-trivial when a duplicate value arrived after unrelated insertions; distinct = distinct scenario hashes among those",
         },
         "C10" => Plan {
@@ -120,7 +120,7 @@ fn plan(prop: &str) -> Option<Plan> {
         },
         "C12" => Plan {
             level: "exploration",
-            engines: vec![("tablesim", 300_000, 30_000_000)],
+            engines: vec![("tablesim", 300_000, 30_000_000), ("tablesim@min", 60_000, 6_000_000)],
             rule: "a run interleaves client scripts on one builder and one interner; non-trivial: a duplicate value arrived after unrelated insertions and the table holds at least two values; distinct = distinct scenario hashes among those",
         },
         "C07" => Plan {
@@ -1188,12 +1188,12 @@ fn check(prop: &str, tier: &str) -> i32 {
 fn required_probes(prop: &str) -> &'static [&'static str] {
     match prop {
         "C01" => &["checks.builder_finish_closed_for_disciplined_clients", "reach.builder_self_reference_protocol", "reach.cycle_in_registry", "reach.node_referenced_only_through_type_parameter", "chain.retain", "chain.scale_round_trip", "chain.builder_rebuild", "events.builder_finish", "kind.bitsequence", "kind.compact", "kind.array"],
-        "C02" => &["reach.cycle_in_registry", "reach.alias_registered_before_target", "reach.node_referenced_only_through_type_parameter", "kind.variant", "kind.tuple"],
+        "C02" => &["fault.unwind_in_type_info.fired", "reach.registration_after_an_unwound_one", "reach.cycle_in_registry", "reach.alias_registered_before_target", "reach.node_referenced_only_through_type_parameter", "kind.variant", "kind.tuple"],
         "C05" => &["reach.registry_above_256_entries", "fault.unwind_in_type_info.fired", "reach.registration_after_an_unwound_one", "reach.redelivery_of_known_identity", "reach.duplicate_after_unrelated_registrations", "reach.alias_registered_before_target", "reach.register_many_same_type_twice", "fault.duplicate_delivery"],
         "C10" => &["frame_source.chain_registry", "frame_source.duplicate_description", "checks.retain_after_decode", "reach.retain_on_registry_with_bit_sequence", "reach.retain_partial", "reach.retain_kept_everything", "reach.retain_kept_nothing", "reach.retain_pulled_in_unaccepted_dependency", "reach.retain_kept_a_cycle_and_dropped_something"],
         "C11" => &["fault.unwind_in_type_info.fired", "reach.registration_after_an_unwound_one", "checks.fault_injecting_configuration", "reach.replica_order_differs", "checks.replay", "checks.replica_compared", "fault.reordered_delivery", "fault.duplicate_delivery"],
         "C12" => &["reach.builder_table_above_256", "reach.builder_table_above_1000", "reach.builder_table_above_16384", "fault.unwind_in_key_clone_or_cmp.fired", "reach.unwound_operation_had_no_effect", "checks.interner_fault_injecting_configuration", "reach.builder_duplicate_after_unrelated_inserts", "reach.builder_self_reference_through_next_type_id", "reach.builder_self_reference_deduplicated_to_older_index", "reach.builder_get_beyond_end", "reach.interner_resolve_out_of_range", "reach.interner_get_unknown", "reach.interner_duplicate_after_unrelated_inserts"],
-        "C07" => &["checks.encode_edit_encode", "checks.frame_decoded_alone", "frame_source.lean_registry", "frame_source.many_types", "frame_source.bulk_collection", "reach.remaining_len_none_path", "reach.io_reader_path", "benign.short_read", "benign.eintr_on_read", "benign.short_write", "compact_class.frame_len.1byte", "compact_class.frame_len.2byte", "compact_class.frame_len.4byte"],
+        "C07" => &["fault.unwind_in_encode_consumer.fired", "checks.encode_edit_encode", "checks.frame_decoded_alone", "frame_source.lean_registry", "frame_source.many_types", "frame_source.bulk_collection", "reach.remaining_len_none_path", "reach.io_reader_path", "benign.short_read", "benign.eintr_on_read", "benign.short_write", "compact_class.frame_len.1byte", "compact_class.frame_len.2byte", "compact_class.frame_len.4byte"],
         "C14" => &["sweep.frames_swept", "sweep.single_faults.json_structural", "sweep.single_faults.json_text", "sweep.single_faults.targeted_rewrites_x3_readers", "fault.truncate.effective", "fault.flip_bit.effective", "fault.rewrite.vec_len.effective", "fault.rewrite.id.effective", "fault.rewrite.def_tag.effective", "fault.io_error_returned_to_decoder", "reach.decode_survived_a_fault_with_a_new_registry", "reach.decode_consumed_less_than_medium", "fault.json_structural.effective", "fault.json_structural.survived", "reach.io_error_inside_frames"],
         _ => &[],
     }
